@@ -233,9 +233,11 @@ def replay(rec):
             means = numpy.array(unj_float(inp['means']), dtype=float)
             variances = numpy.array(unj_float(inp['variances']), dtype=float)
             do, noise, shift = SI.conc_interventions([inp['do'], inp['noise'], inp['shift']])
-            m, c = _exact_pop(inp)
-            pm = numpy.array([float(x) for x in m])
-            pc = numpy.array([[float(x) for x in r] for r in c])
+            # the claim: finite samples (LGANM, and the equivalent ANM) follow the population law the library returns
+            # for the same arguments (that this law is the right one is property C01)
+            pop = s.LGANM(W, means, variances).sample(population=True, do_interventions=do, noise_interventions=noise, shift_interventions=shift)
+            pm = numpy.array(pop.mean, dtype=float)
+            pc = numpy.array(pop.covariance, dtype=float)
             if kind == 'lganm':
                 X = s.LGANM(W, means, variances).sample(N, do_interventions=do, noise_interventions=noise, shift_interventions=shift, random_state=sd)
             else:
@@ -283,7 +285,7 @@ def replay(rec):
                 r1 = numpy.corrcoef(X[:-1, i], X[1:, i])[0, 1]
                 if abs(r1) > 7 / N ** 0.5:
                     bad.append('consecutive rows of variable %d are correlated (r = %.3f)' % (i, r1))
-    return (len(bad) > 0, '%s sample of %d rows vs exact population law: %s' % (kind, N, '; '.join(bad[:4]) or 'consistent'))
+    return (len(bad) > 0, '%s sample of %d rows vs the library\'s population law for the same arguments: %s' % (kind, N, '; '.join(bad[:4]) or 'consistent'))
 
 
 def obligations(tier):
